@@ -76,7 +76,9 @@ SPEC['C16'] = ('Build behaviour is a deterministic function of the history', ['S
   ('C16_sort_order_independent', 'Sorting', 'sort_by_order_independent',
    'the only places where the code iterates unordered containers (the two change sets of reorder_nodes, the bottom-up queue) sort by unique ranks: the result is independent of the arrival order'),
 ], 'The model is a function of the history by construction; the runtime part (hash seeds, processes) is decided by two-process replay.')
-SPEC['C18'] = ('Checker errors during validation never cause stale reuse and are reported', ['Local'], [
+SPEC['C18'] = ('Checker errors during validation never cause stale reuse and are reported', ['Local', 'ErrRep', 'BuJust'], [
+  ('C18_errors_reported_all_sessions', 'ErrRep', 'session_errors_reported', 'GLOBAL "never swallowed": for ALL programs, checkers, fuel, stores and ALL sessions (top-down requires and bottom-up builds in any mix, any number of failures, completed or aborted), every dependency-check end event in the session that carries a checker error has that error in the session\'s dependency_check_errors'),
+  ('C18_bu_failed_check_schedules', 'BuJust', 'bottom_up_executions_justified', 'bottom-up, global: the SJ clause -- a scheduling event is directly preceded by a check end of that task that is NOT "consistent", which a failed check is (try_schedule: C18_bu_error shows the failing check is followed by the scheduling)'),
   ('C18_position_independent', 'Local', 'check_deps_app', 'a consistent prefix of the dependency list is skipped: the following lemmas apply at ANY position'),
   ('C18_td_error', 'Local', 'check_deps_error', 'top-down: an erring resource checker ends validation with "inconsistent", pushes the error, never aborts'),
   ('C18_bu_error', 'Local', 'try_schedule_error', 'bottom-up: an erring checker pushes the error and schedules the task'),
